@@ -100,6 +100,18 @@ CHECKS = {
              'handles deleted while in use must still correct a device) are checked against an abstract table and the model answers every line it models identically.',
         note='Lean kernel + standard axioms; Model/CalTable.lean hand-written (the first_free invariant of the C is a hypothesis of alloc_fresh); numerics of solve are not part of this model.',
         ref='DESIGN.md §6 C16'),
+    'C06': dict(
+        technique='Lean 4 proof (format-level logic: cell order and symmetric completion, engineering notation, normalisation and polar coordinates, NPD field bookkeeping) on a hand model + correspondence run + independent reader of the three formats as oracle',
+        text='Theorems for every port count, matrix and precision: each Touchstone value pair lands in the cell it denotes (Full in both two-port orders, Upper/Lower with symmetric '
+             'completion, the Touchstone 1 two-port order of the saver is undone by the loader), nothing outside the matrix is written; print_value keeps the value, prints an '
+             'exponent that is a multiple of three, never copies more digits than exist and fits its buffer; R-normalisation, magnitude/angle and dB/angle are inverted by the '
+             'loader formulas; an NPD block occupies the fields the loader reserves and the loader indexes inside the checked line. On the compiled C: random objects of every '
+             'type x format lists x file names x filetype x precisions are saved; cksave <=> fsave <=> save; an independent reader must find type, dimensions, frequencies, '
+             'impedances and every requested parameter form to the requested digits; vnadata_fload must agree with that reader and with the object (bit-exact at maximum precision, RI, direct storage).',
+        note='Lean kernel + standard axioms; Model/FileFmt.lean hand-written, tied by the correspondence run (cell order observed through files whose k-th value is k, digit layout of '
+             'every number written, field counts); decimal conversion (printf/strtod), libm and the conversions (C04/C05) are trusted; format lists made only of scalar blocks '
+             '(IL, RL, VSWR) cannot be loaded by design and are exempt from the load half; fprecision so low that frequencies coincide is exempt from the load half.',
+        ref='DESIGN.md §6 C06'),
     'C12': dict(
         technique='Lean 4 proof (retry equivalence and invariant preservation of partially completed extensions, on the vnadata model of C15) + exhaustive single-allocation-failure injection over scripted histories of the compiled C',
         text='Theorems for every object, size and stopping point: what a failed vnadata_resize leaves behind (extensions complete up to the failing stage, the failing one '
